@@ -43,7 +43,11 @@ func Start(t testing.TB, bc *core.Blockchain, mod func(*config.RPC)) (*Node, err
 		return nil, fmt.Errorf("network server: %w", err)
 	}
 	rc := config.RPC{
-		BasicService:              config.BasicService{Enabled: true, Addresses: []string{"127.0.0.1:0"}},
+		BasicService: config.BasicService{Enabled: true, Addresses: []string{"127.0.0.1:0"}},
+		// the network server is never started (no P2P): relay accepted
+		// transactions directly to the (absent) peers instead of queueing them
+		// for a broadcast loop that is not running
+		DirectRelay:               true,
 		MaxGasInvoke:              fixedn.Fixed8FromInt64(100),
 		MaxIteratorResultItems:    100,
 		MaxFindResultItems:        100,
